@@ -295,9 +295,15 @@ def main():
     # the keyword functions' SOURCE, translated to terms of JS.Py.Fn (harness/translate.py)
     import translate
     fns = translate.translate_all(os.environ.get("JS_REPO", "/repo"))
-    changed = write_if_changed(os.path.join(OUT, "Source.lean"), translate.render(fns))
+    fns2 = translate.translate_all2(os.environ.get("JS_REPO", "/repo"))
+    changed = write_if_changed(os.path.join(OUT, "Source.lean"), translate.render(fns, fns2))
+    import translate_types
+    preds = translate_types.translate_all(os.environ.get("JS_REPO", "/repo"))
+    changed_t = write_if_changed(os.path.join(OUT, "TypeSource.lean"), translate_types.render(preds))
+    print("regen: TypeSource.lean %s (%d type predicates)" % ("rewritten" if changed_t else "unchanged", len(preds)))
     print("regen: Source.lean %s (%d functions, %d outside the translated subset)"
-          % ("rewritten" if changed else "unchanged", len(fns), sum(1 for _, t in fns if t.startswith(".unsupported"))))
+          % ("rewritten" if changed else "unchanged", len(fns),
+             sum(1 for (_, t), (_, t2) in zip(fns, fns2) if t.startswith(".unsupported") and t2.startswith(".unsupported"))))
 
 
 if __name__ == "__main__":
